@@ -11,6 +11,7 @@ import NetqasmVerif.Driver.Text
 import NetqasmVerif.Driver.Transpile
 import NetqasmVerif.Driver.Exec
 import NetqasmVerif.Driver.Epr
+import NetqasmVerif.Driver.Asm
 open Lean NQ.Drv
 
 def handlers : List (String → Json → Option Json) := [
@@ -26,7 +27,8 @@ def handlers : List (String → Json → Option Json) := [
   handleText,
   handleTranspile,
   handleExec,
-  handleEpr]
+  handleEpr,
+  handleAsm]
 
 def dispatch (j : Json) : Json :=
   match (jField? j "op").bind jStr? with
